@@ -12,7 +12,7 @@ use krill::api::ta::{
     TrustAnchorSignedRequest, TrustAnchorSignedResponse, TrustAnchorSignerInfo,
     TrustAnchorSignerRequest, TrustAnchorSignerResponse,
 };
-use krill::cli::ta::signer::{SignerInitInfo, TrustAnchorSignerManager};
+use krill::cli::ta::signer::{SignerInitInfo, SignerReissueInfo, TrustAnchorSignerManager};
 use krill::commons::crypto::KrillSigner;
 use krill::commons::error::Error;
 use krill::commons::eventsourcing::AggregateStore;
@@ -66,6 +66,8 @@ pub struct World {
     signer_a: AggregateStore<TrustAnchorSigner>,
     signer_b: Option<AggregateStore<TrustAnchorSigner>>,
     offline: BTreeMap<String, TrustAnchorSignerManager>,
+    /// C06 (`sk=1`): stored commands of the offline signers already reported, per signer
+    offline_seen: BTreeMap<String, HashMap<String, u64>>,
     pub slots: Vec<TaMsg>,
     pub cms: BTreeMap<String, CmsSlot>,
     nonces: Tokens,
@@ -94,7 +96,7 @@ impl World {
         let signer_a = signer_store(&a);
         let profile = cfg.get("profile").cloned().unwrap_or_default();
         World {
-            id: id.to_string(), a, b: None, cfg, signer_a, signer_b: None, offline: BTreeMap::new(),
+            id: id.to_string(), a, b: None, cfg, signer_a, signer_b: None, offline: BTreeMap::new(), offline_seen: BTreeMap::new(),
             slots: vec![], cms: BTreeMap::new(), nonces: Tokens::new("N"), idkeys: vec![],
             prev_ids: HashMap::new(), known_serials: Default::default(), named_keys: HashMap::new(), seen: HashMap::new(),
             last_state: None,
@@ -1136,8 +1138,14 @@ impl World {
             // a signer initialised again (or for the first time elsewhere): offline manager with its own storage
             ["reinit", name, key, rest @ ..] => {
                 let num = Self::kv(rest).get("num").and_then(|v| v.parse::<u64>().ok());
-                let conf = format!("storage_uri = \"memory://{}x{}x{}\"\nlog_type = \"stderr\"\nlog_level = \"off\"\n",
-                    std::process::id(), self.id.chars().filter(|c| c.is_ascii_alphanumeric()).collect::<String>(), name);
+                // `store=disk` (C06): the signer lives in a directory of its own, so that a second store object - the
+                // next krillta invocation - can be opened on it (a memory store is private to its StorageSystem)
+                let conf = if Self::kv(rest).get("store").copied() == Some("disk") {
+                    format!("storage_uri = \"{}/\"\nlog_type = \"stderr\"\nlog_level = \"off\"\n", self.offline_dir(name).display())
+                } else {
+                    format!("storage_uri = \"memory://{}x{}x{}\"\nlog_type = \"stderr\"\nlog_level = \"off\"\n",
+                    std::process::id(), self.id.chars().filter(|c| c.is_ascii_alphanumeric()).collect::<String>(), name)
+                };
                 let cfg = krill::tasigner::Config::parse_str(&conf).map_err(|e| Error::custom(format!("{e}")))?;
                 let mgr = TrustAnchorSignerManager::create(cfg).map_err(|e| Error::custom(format!("{e}")))?;
                 let cm = self.a.krill.ca_manager();
@@ -1159,6 +1167,87 @@ impl World {
                 }
                 self.offline.insert(name.to_string(), mgr);
                 Ok("ok".into())
+            }
+            // C06: the signer re-issues the TA certificate (`krillta signer reissue`): `https=<n>` HTTPS URIs
+            // in the TAL (0 = an rsync-only TAL). `A`/`B`: the embedded signer through the command krillta
+            // builds; an offline name: through `TrustAnchorSignerManager::reissue` itself.
+            ["reissue", signer, rest @ ..] => {
+                let n = Self::kv(rest).get("https").and_then(|v| v.parse::<usize>().ok()).unwrap_or(1);
+                let cm = self.a.krill.ca_manager();
+                let testbed = self.a.krill.config().testbed().expect("testbed").clone();
+                let mut tal_https = vec![];
+                if n >= 1 { tal_https.push(testbed.ta_uri().clone()); }
+                for i in 1..n { tal_https.push(uri::Https::from_string(format!("https://mirror{i}.example/ta/ta.cer")).unwrap()); }
+                let repo_info = cm.ta_proxy_repository_contact()?.repo_info;
+                let tal_rsync = testbed.ta_aia().clone();
+                match *signer {
+                    "A" | "B" => {
+                        if *signer == "B" { self.ensure_b(); }
+                        let s = self.inst(signer);
+                        let store = if *signer == "B" { self.signer_b.as_ref().unwrap() } else { &self.signer_a };
+                        let ctx = TrustAnchorSignerContext::new(s.krill.signer(), s.krill.config().ta_timing);
+                        let cmd = TrustAnchorSignerCommand::make_reissue_command(&ta(), repo_info, tal_https, tal_rsync, &actor);
+                        store.command_with_context(cmd, ctx)?;
+                    }
+                    name => {
+                        let Some(mgr) = self.offline.get(name) else { return Ok("nosigner".into()) };
+                        let info = SignerReissueInfo { proxy_id: cm.ta_proxy_id()?, repo_info, tal_https, tal_rsync };
+                        match mgr.reissue(info) {
+                            Ok(_) => {}
+                            Err(krill::cli::ta::signer::SignerClientError::KrillError(e)) => return Err(e),
+                            Err(e) => return Ok(format!("err:{e}").replace(' ', "_")),
+                        }
+                    }
+                }
+                Ok("ok".into())
+            }
+            // C06: what the next krillta invocation finds for an offline signer - a fresh store object on its
+            // storage (all stored commands, there are no snapshots) and a replay of a copy of the commands,
+            // against what the live manager shows (signer info + exchanges)
+            ["sreload", name] => {
+                let Some(mgr) = self.offline.get(*name) else { return Ok("nosigner".into()) };
+                let live = json!({
+                    "info": mgr.show().ok().and_then(|i| serde_json::to_value(&i).ok()),
+                    "exchanges": mgr.show_exchanges().ok().and_then(|i| serde_json::to_value(&i).ok()),
+                });
+                let storage = self.offline_storage(name);
+                let mut diffs = vec![];
+                let nsid = Ident::make("signer");
+                let copyid = Ident::boxed_from_string(format!("signercopy{}", self.slots.len() + self.seen.len())).unwrap();
+                if let (Ok(src), Ok(dst)) = (storage.open(nsid), storage.open(&copyid)) {
+                    for sc in src.scopes().unwrap_or_default() {
+                        for k in src.keys(Some(&sc), "command-").unwrap_or_default() {
+                            let v: Option<Value> = src.get(Some(&sc), &k).unwrap_or(None);
+                            if let Some(v) = v { let _ = dst.store(Some(&sc), &k, &v); }
+                        }
+                    }
+                }
+                for (route, ns) in [("snapshot", nsid), ("scratch", &*copyid)] {
+                    let st: Result<AggregateStore<TrustAnchorSigner>, _> = AggregateStore::create(&storage, ns, false);
+                    match st {
+                        Err(_) => diffs.push(format!("signer/{name}:{route}:store-error")),
+                        Ok(st) => match std::panic::catch_unwind(std::panic::AssertUnwindSafe(|| st.get_latest(&ta()))) {
+                            Err(_) => diffs.push(format!("signer/{name}:{route}:PANIC")),
+                            Ok(Err(e)) => {
+                                if std::env::var_os("KVERIF_DEBUG").is_some() { eprintln!("sreload {name} {route}: {e}"); }
+                                diffs.push(format!("signer/{name}:{route}:load-error"))
+                            }
+                            Ok(Ok(sg)) => {
+                                let v = json!({
+                                    "info": serde_json::to_value(sg.get_signer_info()).ok(),
+                                    "exchanges": serde_json::to_value(sg.get_exchanges()).ok(),
+                                });
+                                if let Some(path) = crate::sys::json_first_diff(&live, &v, "") {
+                                    diffs.push(format!("signer/{name}:{route}:{path}"));
+                                }
+                            }
+                        },
+                    }
+                }
+                if let Ok(dst) = storage.open(&copyid) {
+                    for sc in dst.scopes().unwrap_or_default() { let _ = dst.drop_scope(&sc); }
+                }
+                if diffs.is_empty() { Ok("ok:same:1".into()) } else { Ok(format!("ok:diff:{}", diffs.join(";"))) }
             }
             ["sigadd", name] | ["sigupdate", name] => {
                 let info = match *name {
@@ -1321,9 +1410,20 @@ impl World {
                 let s = if which == "B" { self.b.as_mut().unwrap() } else { &mut self.a };
                 let (_, obs) = s.exec(&line);
                 let v: Value = serde_json::from_str(&obs).unwrap_or(Value::Null);
+                if let Some(st) = v.get("stored") { extra.insert("stored_inner".into(), st.clone()); }
+                if let Some(st) = v.get("stored_boot") { extra.insert("stored_boot".into(), st.clone()); }
                 Ok(v["ret"].as_str().unwrap_or("?").to_string())
             }
         }
+    }
+
+    fn offline_dir(&self, name: &str) -> std::path::PathBuf {
+        self.a.scratch().path().join(format!("offline-{name}"))
+    }
+
+    /// The storage an offline signer created with `reinit … store=disk` lives in.
+    fn offline_storage(&self, name: &str) -> krill::commons::storage::StorageSystem {
+        krill::commons::storage::StorageSystem::new_disk(self.offline_dir(name))
     }
 
     pub fn has_open_request(&self) -> bool {
@@ -1364,6 +1464,27 @@ impl World {
         for (k, v) in extra { o.insert(k, v); }
         o.insert("cmds".into(), Value::Array(self.new_cmds()));
         o.insert("chg".into(), json!(chg));
+        if self.a.sk {
+            // C06 coverage: every stored command / change set since the previous op (instance A and the
+            // offline signers), as shape skeletons
+            if !self.a.boot_stored.is_empty() {
+                o.insert("stored_boot".into(), Value::Array(std::mem::take(&mut self.a.boot_stored)));
+            }
+            let mut st: Vec<Value> = o.remove("stored_inner").and_then(|v| v.as_array().cloned()).unwrap_or_default();
+            st.extend(crate::sys::stored_since(self.a.krill.storage(), &mut self.a.stored_seen));
+            let names: Vec<String> = self.offline.keys().cloned().collect();
+            for n in names {
+                let storage = self.offline_storage(&n);
+                let seen = self.offline_seen.entry(n.clone()).or_default();
+                for mut c in crate::sys::stored_since(&storage, seen) {
+                    if let Some(e) = c.get("e").and_then(|e| e.as_str()).map(|e| e.replacen("signer:", &format!("signer@{n}:"), 1)) {
+                        c["e"] = json!(e);
+                    }
+                    st.push(c);
+                }
+            }
+            o.insert("stored".into(), Value::Array(st));
+        }
         if self.ta_obs {
             let p = self.proxy_proj("A");
             o.insert("ta".into(), p);
